@@ -50,7 +50,8 @@ THEOREMS = ['C18_run_fresh_state', 'C18_history_independent',
             'C18_sorted_depends_on_set_only',
             'C18_numbering_order_sensitive_partial',
             'C18_audit_globals_readonly', 'C18_audit_ord_only_ints',
-            'C18_audit_effects_allowlisted', 'C18_audit_fail_closed']
+            'C18_audit_effects_allowlisted', 'C18_audit_ambient_allowlisted',
+            'C18_audit_fail_closed']
 TRUSTED = [
     'hand-written model coq/C18/Model.v (modelled, tied by execution only)',
     'the translator harness/c18_audit.py (Python ast -> Footprint.v): '
@@ -111,6 +112,10 @@ def footprint_source(entries):
         'e_live e = true ->\n  is_store e = true \\/ is_write e = true \\/ '
         'is_unknown e = true -> Allowed allow e.\n'
         'Proof. exact (audit_effects_allowlisted allow footprint '
+        'footprint_ok). Qed.\n'
+        'Theorem footprint_ambient_allowlisted : forall e, In e footprint -> '
+        'e_live e = true ->\n  is_ambient e = true -> Allowed allow e.\n'
+        'Proof. exact (audit_ambient_allowlisted allow footprint '
         'footprint_ok). Qed.\n'
         'Print Assumptions footprint_ok.\n'
         'Print Assumptions footprint_ord_only_ints.\n')
